@@ -33,6 +33,13 @@ def run(ctx):
     ctx.cov['states'] -= rg['distinct']; ctx.cov['transitions'] -= rg['generated']
     if 'Independent' not in rg['violated']:
         raise vlib.Infra('spec self-test failed: the global-acquisition variant does not violate Independent')
+    # command layer: the lock map pip:run builds from --rlock / --wlock, observed at the shared mutex
+    rl = ctx.tlc_must_pass('locks', 'LockLists', 'MC_LockLists.cfg', workers=2, timeout=300, name='LockLists: every pair of read / write lists over 3 names')
+    shl, totl, takl = vlib.shard_lines(ctx, rl['out'], 4, marker='\\"k\\":\\"locklist\\"')
+    ml = vlib.run_sharded(ctx, lambda p: ['locklists', '--in', p], shl)
+    ctx.cov['replay'].append(dict(what='lock lists given to a real pip:run', model_cases=totl, executed=ml['executed'], failures=ml['failures_by_key']))
+    ctx.cov['evaluations'] += ml['executed']
+    vlib.report_case_failures(ctx, ml, 'lock lists of pip:run')
     m = ctx.vh(['lockscript', '--rounds', '24' if q else '200'], timeout=3000)
     ctx.cov['replay'].append(dict(what='scripted schedules', executed=m['executed'], failures=m['failures_by_key']))
     ctx.cov['evaluations'] += m['executed']
